@@ -61,6 +61,9 @@ def configs(ss):
     from harness.probes import ZeroTransOfInfected
     cf['mixingpool-zero-rel-trans'] = lambda seed, bscale=1.0: ss.Sim(n_agents=80, diseases=ss.SIS(init_prev=0.3), networks=ss.MixingPool(beta=ss.beta(0.9 * bscale), contacts=ss.poisson(3)),
                                           connectors=ZeroTransOfInfected(name='zerotrans'), dur=4, rand_seed=seed, verbose=0)
+    from harness.probes import ZeroSusOfEven
+    cf['mixingpool-zero-rel-sus-two-diseases'] = lambda seed, bscale=1.0: ss.Sim(n_agents=80, diseases=[ss.SIS(init_prev=0.3), ss.SIR(init_prev=0.2, dur_inf=4)], networks=ss.MixingPool(beta=ss.beta(0.5 * bscale), contacts=ss.poisson(3)),
+                                          connectors=ZeroSusOfEven(name='zerosus'), dur=5, rand_seed=seed, verbose=0)
     cf['mixingpool'] = lambda seed, bscale=1.0: ss.Sim(n_agents=80, diseases=ss.SIS(init_prev=0.1), networks=ss.MixingPool(beta=ss.beta(0.3 * bscale), contacts=ss.poisson(2)),
                                           demographics=ss.Deaths(death_rate=20), dur=5, rand_seed=seed, verbose=0)
     cf['mixingpool-explicit-dst-deaths'] = lambda seed, bscale=1.0: ss.Sim(n_agents=100, diseases=ss.SIS(init_prev=0.3), demographics=ss.Deaths(death_rate=150), dur=8, rand_seed=seed, verbose=0,
@@ -139,6 +142,8 @@ def run_level(ctx, ss):
                     if gone: ctx.violation(f'{name}: mixing pool infected agent {gone[0]} at step {pc["ti"]}, who is not active any more (died earlier)', key)
                     bad = [u for u in new if not st['sus'][u]]
                     if bad: ctx.violation(f'{name}: mixing pool infected non-susceptible agents {bad[:3]}', key)
+                    bad = [u for u in new if st['rel_sus'][u] == 0]
+                    if bad: ctx.violation(f'{name}: mixing pool infected agents {bad[:3]} of {dname} whose relative susceptibility is 0', key)
                     if new and pc['src'] is not None and not any(st['inf'][int(u)] and st['rel_trans'][int(u)] > 0 for u in pc['src']):
                         ctx.violation(f'{name}: mixing pool produced infections although no source-group member is infectious', key)
                     ctx.dist('mixing-pool calls')
